@@ -27,6 +27,7 @@ def run(P, R, L):
     R.clause("OWN-11", "the table cache looks up, opens and caches a table under the one file number that was asked for")
     K.own11_table_cache_key(P, R, L)
     K.bundle_filter(P, R, L)
+    K.agr2_codec_pairs(P, R, L, groups=("table",))
     R.clause("GRD-18", "table and log files are written with write_all (the builders account offsets by the intended length); reads are exact or count-checked")
     K.grd18_short_reads(P, R, L)
     R.not_decided += ["prefix compression, separators, seek positions, iteration order (computed bytes)"]
